@@ -94,11 +94,13 @@ CHECKS = {
                 text="Symbolic path execution of the five comparison body builders, the placement verifier and the per-entry error isolation with z3: a path returns Err exactly when "
                      "the documented rejection rule holds for some existing field under the path condition (all 20 attribute-presence atoms of a field symbolic).",
                 note="Trusted: rustc's MIR dump, executor semantics (validated on every run against the real macro on sampled configurations), z3. Bounds: <=2 fields / variants. "
-                     "The attribute parser is outside (the check starts from parsed entries).",
+                     "Parse wiring (which parse result lands in which attribute slot, every argument copied into the entry, attribute name table) is decided with the result of structmeta's "
+                     "`parse_single` as a symbolic input; structmeta's own token parsing is outside and is observed natively on the complete placement matrix and the per-owner recognition "
+                     "of every helper attribute (120 expansions; a disagreement is a verdict of the macro's own diagnostics, labelled so).",
                 tech="symbolic execution of rustc MIR + z3, encoder validation against the real macro, native replay of models"),
     "C14": dict(engine="E3 mir-smt", ref="DESIGN.md §3, §6 C14",
                 text="Symbolic path execution of the attribute-ownership kernel with z3: HelperAttributeKinds::{is_match, extend} against the documentation table, remove_attrs on vectors of 0..3 "
-                     "(thorough 0..5) symbolic attributes (kept == the non-matching ones, in order, no panic), the attribute-macro entry functions and lib.rs. "
+                     "(thorough 0..5) symbolic attributes (kept == the non-matching ones, in order, no panic), the attribute-macro entry functions (incl. that the core builders leave the derive_ex flag of the attribute kinds as they found it on every way out) and lib.rs. "
                      "Restricted scope: token-for-token survival of the rest of the item is not decided.",
                 note="Trusted: rustc's MIR dump, executor semantics, z3. Restricted claim: which attributes are stripped, at all three levels, also when derivation fails. Obligations that are "
                      "facts about the code's structure become a VIOLATION only when a native probe of the behaviour they stand for fails (vlib/probes.py), otherwise INCONCLUSIVE.",
@@ -124,7 +126,7 @@ CHECKS = {
                      "calls of unwrap / expect / Index on data the macro built - is found in the MIR of the current tree and must be unreachable on every feasible path, either for every "
                      "argument value of its function or in every calling context (builders with all configuration atoms symbolic, the five comparison bodies with all 20 atoms of a field, "
                      "the two core dispatch loops with the Deref builder inlined). Restricted scope: totality over arbitrary token streams (syn / structmeta parsers, parse_quote!, "
-                     "Ident::new), well-formedness of the printed tokens and determinism are NOT decided by the solver; they are sampled natively (fresh expander processes on a corpus) "
+                     "Ident::new), well-formedness of the printed tokens and determinism are NOT decided by the solver; they are sampled natively (fresh expander processes on a corpus, expanded in the same, the reverse and a shuffled order) "
                      "and reported as sampling.",
                 note="Trusted: rustc's MIR dump, executor semantics and callee models (panic-aware models of unwrap / expect / Index; bounds checks are the MIR's own assert terminators), z3. "
                      "Restricted claim: the panic-freedom kernel over the configuration space; partial calls that depend on token text are listed in the evidence and only exercised natively. "
@@ -133,7 +135,9 @@ CHECKS = {
                 tech="symbolic execution of rustc MIR + z3 (reachability of panic sites), native replay; native sampling of totality / well-formedness / determinism across expander processes"),
     "C18": dict(engine="E1 kani-gen", ref="DESIGN.md §6 C18",
                 text="Kani/CBMC decides pointer identity of deref()/deref_mut() with the field, Target identity (type-level) and that writes land in the field, for all field values.",
-                note=E1_NOTE + " The arity rejection (0 or >=2 fields) is outside this check.", tech="Kani/CBMC bounded model checking of macro-generated Deref/DerefMut impls"),
+                note=E1_NOTE + " The arity rejection (0 or >=2 fields) and the tokens of the emitted signatures / bodies (`type Target = <field type>`, `-> &[mut] <field type>`, `&[mut] self.<field>`) "
+                     "are E3 obligations on build_deref_for_struct attached to this check (confirmed by native probes).",
+                tech="Kani/CBMC bounded model checking of macro-generated Deref/DerefMut impls; symbolic execution of rustc MIR + z3 for arity and emitted signature"),
 }
 
 NOT_APPLICABLE = {
